@@ -61,6 +61,45 @@ func validDoc(typ string, seed uint64) string {
 	return string(b)
 }
 
+func pick2(f *corpus.Filler, l []int) int { return l[f.Intn(len(l))] }
+
+// drawQuery builds a field-query string over the members of t, with sub queries on struct-typed members.
+func drawQuery(f *corpus.Filler, t reflect.Type) string {
+	var sel []interface{}
+	for i := 0; i < t.NumField(); i++ {
+		fld := t.Field(i)
+		if fld.PkgPath != "" || fld.Anonymous || f.Intn(3) == 0 {
+			continue
+		}
+		nm := fld.Name
+		if tag := strings.Split(fld.Tag.Get("json"), ",")[0]; tag != "" {
+			nm = tag
+		}
+		ft := fld.Type
+		for ft.Kind() == reflect.Ptr || ft.Kind() == reflect.Slice {
+			ft = ft.Elem()
+		}
+		if ft.Kind() == reflect.Struct && ft.NumField() > 0 && f.Intn(2) == 0 { // a sub query on a struct-typed member
+			var sub []string
+			for _, sn := range fieldNames(ft) {
+				if f.Intn(2) == 0 {
+					sub = append(sub, sn)
+				}
+			}
+			if len(sub) > 0 {
+				sel = append(sel, map[string][]string{nm: sub})
+				continue
+			}
+		}
+		sel = append(sel, nm)
+	}
+	if len(sel) == 0 {
+		sel = append(sel, fieldNames(t)[0])
+	}
+	q, _ := stdjson.Marshal(sel)
+	return string(q)
+}
+
 func buildPool(seed uint64, n int) []Call {
 	f := corpus.NewFiller(seed, 1<<30)
 	pick := func(l []string) string { return l[f.Intn(len(l))] }
@@ -69,7 +108,39 @@ func buildPool(seed uint64, n int) []Call {
 	var pool []Call
 	for len(pool) < n {
 		var c Call
-		switch k := f.Intn(20); {
+		switch k := f.Intn(24); {
+		case k >= 20 && k < 22: // filtered encodings: several queries (with and without sub queries) per type
+			c.Op = pick([]string{"context", "context", "encoder"})
+			c.Type = pick(queryTypes)
+			c.Fill = f.Next64()
+			c.Marker = pick([]string{"", "m1"})
+			if c.Op == "encoder" {
+				c.Marker = "m1"
+			}
+			c.Query = drawQuery(f, typeTable[c.Type])
+			if f.Intn(4) == 0 {
+				c.Opts = pick2(f, []int{4, 16, 2})
+			}
+		case k >= 22: // one Decoder: calls that fail with the stream still in step, and calls that show leftover state
+			c.Op = "decoder"
+			switch s := f.Intn(8); {
+			case s < 2: // the whole top-level value is consumed, then the unmarshaler refuses it
+				c.Doc, c.Type = "!"+`"FAIL"`, pick([]string{"UFail", "TU"})
+				c.Opts = pick2(f, []int{0, 32, 32})
+				c.Marker = pick([]string{"", "m1", "m2"})
+			case s == 2: // fails before anything is read
+				c.Spec, c.Type, c.Marker = "bad-dst", pick([]string{"Plain1", "Dec"}), pick([]string{"m1", "m2"})
+				c.Doc = "{}"
+			case s < 5: // duplicate keys, no option: last one wins
+				c.Doc, c.Type = `{"A":1,"A":2,"S":"x","S":"y"}`, pick([]string{"Dec", "Plain1"})
+				c.Opts = pick2(f, []int{0, 0, 32})
+			case s < 7: // a context-aware unmarshaler reports the context it was given
+				c.Doc, c.Type = `{"A":3,"C":{"k":1}}`, "Dec"
+				c.Marker = pick([]string{"", "", "m2"})
+			default:
+				c.Doc, c.Type = `[1,2]`, "CtxU"
+				c.Marker = pick([]string{"", "m1"})
+			}
 		case k < 9: // encoding
 			c.Op = pick([]string{"marshal", "marshal", "indent", "opts", "context", "noescape", "encoder", "encoder"})
 			c.Type = pick(encTypes)
@@ -97,18 +168,7 @@ func buildPool(seed uint64, n int) []Call {
 				c.Marker = pick([]string{"m1", "m2"})
 				if c.Op == "context" && c.Spec == "" && f.Intn(3) != 0 {
 					c.Type = pick(queryTypes)
-					names := fieldNames(typeTable[c.Type])
-					var sel []string
-					for _, nm := range names {
-						if f.Intn(2) == 0 {
-							sel = append(sel, nm)
-						}
-					}
-					if len(sel) == 0 {
-						sel = names[:1]
-					}
-					q, _ := stdjson.Marshal(sel)
-					c.Query = string(q)
+					c.Query = drawQuery(f, typeTable[c.Type])
 				}
 			}
 			if c.Opts&2 != 0 { // unordered output is compared after re-serialising it: it has to be plain JSON
@@ -134,6 +194,10 @@ func buildPool(seed uint64, n int) []Call {
 			case s == 7:
 				c.Doc, c.Type = `{"A":1,"A":2,"S":"x","S":"y"}`, pick([]string{"Dec", "Plain1"})
 				c.Opts = 32
+			case s == 9 || s == 10: // a top-level value refused by its unmarshaler (the whole value was consumed)
+				c.Doc, c.Type = "!"+`"FAIL"`, pick([]string{"UFail", "TU"})
+			case s == 11 && strings.HasPrefix(c.Op, "decoder"): // fails before anything is read
+				c.Spec = "bad-dst"
 			case s == 8:
 				c.Doc, c.Type = `{"q":"77","z":"\"quoted\"","Ar":[1,2,3,4],"M":{"k":[1,2]},"L":[{"x":1},{"x":2,"y":"b"}]}`, "Dec"
 			}
